@@ -1,22 +1,256 @@
 import RustbusModel.Model.Marshal
 import RustbusModel.Lemmas.Wire
+import RustbusModel.Lemmas.WireShapeInduct
 /-!
 The mechanism-level marshaller computes exactly `Wire.enc`. Statements fixed; helpers may be added above.
 -/
 namespace Rustbus.Marshal
 open Rustbus Rustbus.Bytes Rustbus.Wire
 
+/-! ### buffer primitives -/
+
+theorem padTo_eq (a : Nat) (buf : List UInt8) : padTo a buf = buf ++ zeros (padLen a buf.length) := rfl
+
+@[simp] theorem padTo_length (a : Nat) (buf : List UInt8) :
+    (padTo a buf).length = buf.length + padLen a buf.length := by
+  simp [padTo]
+
+/-- back-patching the four placeholder bytes right after `pre` -/
+theorem insertU32_at (bo : ByteOrder) (val pos : Nat) (pre four rest : List UInt8)
+    (hpos : pos = pre.length) (h4 : four.length = 4) :
+    insertU32 bo val pos (pre ++ (four ++ rest)) = pre ++ (bytesOf bo 4 val ++ rest) := by
+  subst hpos
+  unfold insertU32
+  have h1 : (pre ++ (four ++ rest)).take pre.length = pre := by simp
+  have h2 : (pre ++ (four ++ rest)).drop (pre.length + 4) = rest := by
+    rw [← List.drop_drop]
+    simp [← h4]
+  rw [h1, h2]
+
+/-! ### basic types -/
+
+theorem marshalBaseM_eq_encBase (bo : ByteOrder) (b : Base) (v : Val) (buf : List UInt8) :
+    marshalBaseM bo b v buf = (encBase bo buf.length b v).map (buf ++ ·) := by
+  cases b <;> cases v <;> simp only [marshalBaseM, encBase, Base.fixedSize, padTo_eq, Option.map_none] <;>
+    repeat' split <;> simp
+
+/-! ### catch-all arms -/
+
+theorem marshalM_bad (bo : ByteOrder) (t : Ty) (v : Val) (buf : List UInt8) (h : shapeOk t v = false) :
+    marshalM bo t v buf = none := by
+  cases t <;> cases v <;> simp [shapeOk] at h <;> simp [marshalM]
+
+theorem marshalEntriesM_bad (bo : ByteOrder) (k : Base) (vt : Ty) (h : Val) (tl : List Val)
+    (buf : List UInt8) (hh : ∀ kv vv, h ≠ .struct [kv, vv]) :
+    marshalEntriesM bo k vt (h :: tl) buf = none := by
+  unfold marshalEntriesM
+  split
+  · rename_i heq; cases heq
+  · rename_i heq; cases heq; exact (hh _ _ rfl).elim
+  · rfl
+
+/-! ### the mutual family -/
+
+/-- the shared tail of the array and dict arms: content appended after placeholder and padding, then
+    the back-patch -/
+theorem backpatch_eq (bo : ByteOrder) (buf : List UInt8) (a : Nat) (r : Option (List UInt8)) :
+    (match Option.map (fun x => padTo a (padTo 4 buf ++ [0, 0, 0, 0]) ++ x) r with
+      | none => none
+      | some buf4 =>
+        if buf4.length - (padTo a (padTo 4 buf ++ [0, 0, 0, 0])).length ≤ maxArrayLen then
+          some (insertU32 bo (buf4.length - (padTo a (padTo 4 buf ++ [0, 0, 0, 0])).length)
+            (padTo 4 buf).length buf4)
+        else none) =
+    Option.map (fun x => buf ++ x)
+      (match r with
+      | none => none
+      | some body =>
+        if body.length ≤ maxArrayLen then
+          some (zeros (padLen 4 buf.length) ++ (bytesOf bo 4 body.length ++
+            (zeros (padLen a (buf.length + padLen 4 buf.length + 4)) ++ body)))
+        else none) := by
+  cases r with
+  | none => rfl
+  | some body =>
+    simp only [Option.map_some]
+    have hl : (padTo a (padTo 4 buf ++ [0, 0, 0, 0]) ++ body).length -
+        (padTo a (padTo 4 buf ++ [0, 0, 0, 0])).length = body.length := by
+      simp only [List.length_append]; omega
+    rw [hl]
+    split
+    · simp only [Option.map_some, Option.some.injEq]
+      have e : padTo a (padTo 4 buf ++ [0, 0, 0, 0]) ++ body =
+          padTo 4 buf ++ ([0, 0, 0, 0] ++
+            (zeros (padLen a (buf.length + padLen 4 buf.length + 4)) ++ body)) := by
+        simp [padTo_eq, List.append_assoc, Nat.add_assoc]
+      rw [e, insertU32_at bo _ _ (padTo 4 buf) [0, 0, 0, 0] _ rfl rfl]
+      simp [padTo_eq, List.append_assoc]
+    · rfl
+
+theorem marshalM_eq_enc_all :
+    (∀ t v, ∀ bo buf, marshalM bo t v buf = (enc bo buf.length t v).map (buf ++ ·)) ∧
+    (∀ e vs, ∀ bo buf, marshalListM bo e vs buf = (encList bo buf.length e vs).map (buf ++ ·)) ∧
+    (∀ k vt es, ∀ bo buf,
+      marshalEntriesM bo k vt es buf = (encEntries bo buf.length k vt es).map (buf ++ ·)) ∧
+    (∀ fs vs, ∀ bo buf, marshalFieldsM bo fs vs buf = (encFields bo buf.length fs vs).map (buf ++ ·)) := by
+  apply enc_induct
+  case hbase =>
+    intro b v bo buf
+    simp only [marshalM, enc]
+    exact marshalBaseM_eq_encBase bo b v buf
+  case harr =>
+    intro e vs ih bo buf
+    simp only [marshalM, enc]
+    rw [ih]
+    have hl : (padTo e.align (padTo 4 buf ++ [0, 0, 0, 0])).length =
+        buf.length + padLen 4 buf.length + 4 + padLen e.align (buf.length + padLen 4 buf.length + 4) := by
+      simp
+    rw [← hl]
+    exact backpatch_eq bo buf e.align _
+  case hdict =>
+    intro k vt es ih bo buf
+    simp only [marshalM, enc]
+    rw [ih]
+    have hl : (padTo 8 (padTo 4 buf ++ [0, 0, 0, 0])).length =
+        buf.length + padLen 4 buf.length + 4 + padLen 8 (buf.length + padLen 4 buf.length + 4) := by
+      simp
+    rw [← hl]
+    exact backpatch_eq bo buf 8 _
+  case hstruct =>
+    intro fs vs ih bo buf
+    simp only [marshalM, enc]
+    split
+    · rfl
+    · rw [ih, padTo_length]
+      cases encFields bo (buf.length + padLen 8 buf.length) fs vs with
+      | none => rfl
+      | some body => simp [padTo_eq]
+  case hvar =>
+    intro t v ih bo buf
+    simp only [marshalM, enc]
+    split
+    · rw [ih]
+      have hl : (buf ++ UInt8.ofNat (sigBytes t).length :: (sigBytes t ++ [0])).length =
+          buf.length + (sigBytes t).length + 2 := by
+        simp; omega
+      rw [hl]
+      cases enc bo (buf.length + (sigBytes t).length + 2) t v with
+      | none => rfl
+      | some body => simp
+    · rfl
+  case hbad =>
+    intro t v hs bo buf
+    rw [marshalM_bad bo t v buf hs, enc_bad bo _ t v hs]; rfl
+  case hLnil => intros; simp [marshalListM, encList]
+  case hLcons =>
+    intro e v vs ih1 ih2 bo buf
+    simp only [marshalListM, encList]
+    rw [ih1]
+    cases enc bo buf.length e v with
+    | none => rfl
+    | some b =>
+      simp only [Option.map_some]
+      rw [ih2, List.length_append]
+      cases encList bo (buf.length + b.length) e vs with
+      | none => rfl
+      | some r => simp
+  case hEnil => intros; simp [marshalEntriesM, encEntries]
+  case hEcons =>
+    intro k vt kv vv rest ih1 ih2 bo buf
+    simp only [marshalEntriesM, encEntries]
+    rw [marshalBaseM_eq_encBase, padTo_length]
+    cases encBase bo (buf.length + padLen 8 buf.length) k kv with
+    | none => rfl
+    | some kb =>
+      simp only [Option.map_some]
+      rw [ih1]
+      have hl : (padTo 8 buf ++ kb).length = buf.length + padLen 8 buf.length + kb.length := by simp
+      rw [hl]
+      cases enc bo (buf.length + padLen 8 buf.length + kb.length) vt vv with
+      | none => rfl
+      | some vb =>
+        simp only [Option.map_some]
+        rw [ih2]
+        have hl2 : (padTo 8 buf ++ kb ++ vb).length =
+            buf.length + padLen 8 buf.length + kb.length + vb.length := by simp; omega
+        rw [hl2]
+        cases encEntries bo (buf.length + padLen 8 buf.length + kb.length + vb.length) k vt rest with
+        | none => rfl
+        | some rb => simp [padTo_eq]
+  case hEbad =>
+    intro k vt hd tl hh bo buf
+    rw [marshalEntriesM_bad bo k vt hd tl buf hh, encEntries_bad bo _ k vt hd tl hh]; rfl
+  case hFnil => intros; simp [marshalFieldsM, encFields]
+  case hFcons =>
+    intro t ts v vs ih1 ih2 bo buf
+    simp only [marshalFieldsM, encFields]
+    rw [ih1]
+    cases enc bo buf.length t v with
+    | none => rfl
+    | some b =>
+      simp only [Option.map_some]
+      rw [ih2, List.length_append]
+      cases encFields bo (buf.length + b.length) ts vs with
+      | none => rfl
+      | some r => simp
+  case hFbad1 => intros; simp [marshalFieldsM, encFields]
+  case hFbad2 => intros; simp [marshalFieldsM, encFields]
+
 /-- Appending with padding from the buffer length, placeholders and back-patching produce exactly the
     encoding at the absolute offset `buf.length`, and fail exactly when there is no encoding. -/
 theorem marshalM_eq_enc (bo : ByteOrder) (t : Ty) (v : Val) (buf : List UInt8) :
-    marshalM bo t v buf = (enc bo buf.length t v).map (buf ++ ·) := by
-  sorry
+    marshalM bo t v buf = (enc bo buf.length t v).map (buf ++ ·) :=
+  marshalM_eq_enc_all.1 t v bo buf
+
+/-! ### the slice fast path -/
+
+theorem fast_facts {b : Base} {k : Nat} (hb : fastElem b = true) (hk : b.fixedSize = some k) :
+    b.align = k ∧ b.bound = 256 ^ k ∧ (k = 1 ∨ k = 2 ∨ k = 4 ∨ k = 8) := by
+  cases b <;> simp [fastElem] at hb <;> simp [Base.fixedSize] at hk <;> subst hk <;>
+    simp [Base.align, Base.bound, Base.fixedSize]
+
+theorem padLen_add_mod {a : Nat} (ha : a = 1 ∨ a = 2 ∨ a = 4 ∨ a = 8) (o : Nat) :
+    (o + padLen a o) % a = 0 := by
+  rcases ha with rfl | rfl | rfl | rfl <;> simp only [padLen] <;> omega
+
+theorem flatten_bytesOf_length (bo : ByteOrder) (k : Nat) (ns : List Nat) :
+    ((ns.map (bytesOf bo k)).flatten).length = k * ns.length := by
+  induction ns with
+  | nil => simp
+  | cons n ns ih => simp [ih, Nat.mul_succ]; omega
+
+/-- aligned fixed-size elements are laid out back to back without padding -/
+theorem encList_fast (bo : ByteOrder) (b : Base) (k : Nat) (hb : fastElem b = true)
+    (hk : b.fixedSize = some k) (ns : List Nat) (o : Nat) (ho : o % k = 0)
+    (hn : ∀ n ∈ ns, n < 256 ^ k) :
+    encList bo o (.base b) (ns.map Val.num) = some ((ns.map (bytesOf bo k)).flatten) := by
+  obtain ⟨ha, hbd, _⟩ := fast_facts hb hk
+  induction ns generalizing o with
+  | nil => simp [encList]
+  | cons n ns ih =>
+    have h1 : encBase bo o b (.num n) = some (bytesOf bo k n) := by
+      refine (encBase_fixed hk).2 ⟨n, rfl, ?_, ?_⟩
+      · rw [hbd]; exact hn n (by simp)
+      · rw [ha, padLen_zero_of_mod ho]; simp [zeros]
+    simp only [List.map_cons, encList, enc, h1, bytesOf_length, List.flatten_cons]
+    rw [ih (o + k) (by rw [Nat.add_mod_right]; exact ho) (fun m hm => hn m (by simp [hm]))]
 
 /-- The fast path for slices of fixed-size elements equals the element-wise encoding of the array. -/
 theorem marshalSliceFastM_eq_enc (bo : ByteOrder) (b : Base) (k : Nat) (ns : List Nat) (buf : List UInt8)
     (hb : fastElem b = true) (hk : b.fixedSize = some k) (hn : ∀ n ∈ ns, n < 256 ^ k) :
     marshalSliceFastM bo b k ns buf =
       (enc bo buf.length (.array (.base b)) (.arr (ns.map Val.num))).map (buf ++ ·) := by
-  sorry
+  obtain ⟨ha, _, hk4⟩ := fast_facts hb hk
+  have hal : (Ty.base b).align = k := ha
+  unfold marshalSliceFastM
+  simp only [enc, hal]
+  rw [encList_fast bo b k hb hk ns _ (padLen_add_mod hk4 _) hn]
+  simp only [flatten_bytesOf_length]
+  split
+  · simp [padTo_eq, List.append_assoc, Nat.add_assoc]
+  · rfl
 
 end Rustbus.Marshal
+
+#print axioms Rustbus.Marshal.marshalM_eq_enc
+#print axioms Rustbus.Marshal.marshalSliceFastM_eq_enc
